@@ -351,17 +351,10 @@ func (w *crdtWorld) localEdit(rep *crdtReplica) {
 	}
 	var what string
 	before := len(rep.doc.CreateChangePack().Changes)
-	err := rep.doc.Update(func(root *json.Object, p *presence.Presence) error {
-		n := 1
-		if c.Rng.Intn(5) == 0 {
-			n = 2 + c.Rng.Intn(2)
-		}
-		for i := 0; i < n; i++ {
-			what = randomEdit(c.Rng, root, c)
-			c.Count("api:" + what)
-		}
-		return nil
-	})
+	var err error
+	if rec := safely(func() { err = w.updateOnce(rep, &what) }); rec != nil {
+		err = fmt.Errorf("panic: %v", rec)
+	}
 	if err != nil {
 		c.Oracle("%supdate failed on %s: %v", w.knownTag(), rep.name, err)
 		return
@@ -375,6 +368,22 @@ func (w *crdtWorld) localEdit(rep *crdtReplica) {
 		w.checkClock(cn)
 	}
 	w.observe(rep)
+}
+
+// updateOnce performs one random Update on the replica.
+func (w *crdtWorld) updateOnce(rep *crdtReplica, what *string) error {
+	c := w.c
+	return rep.doc.Update(func(root *json.Object, p *presence.Presence) error {
+		n := 1
+		if c.Rng.Intn(5) == 0 {
+			n = 2 + c.Rng.Intn(2)
+		}
+		for i := 0; i < n; i++ {
+			*what = randomEdit(c.Rng, root, c)
+			c.Count("api:" + *what)
+		}
+		return nil
+	})
 }
 
 // checkClock evaluates C06's first clause on a real change: vv[actor] == lamport.
@@ -468,7 +477,10 @@ func (w *crdtWorld) sync(rep *crdtReplica) {
 	}
 	head := int64(len(w.log))
 	resp := change.NewPack(rep.doc.Key(), change.NewCheckpoint(head, rep.pushedC), wire, nil, nil)
-	err = rep.doc.ApplyChangePack(resp)
+	if rec := safely(func() { err = rep.doc.ApplyChangePack(resp) }); rec != nil {
+		c.Oracle("%sApplyChangePack panicked on %s: %v", w.knownTag(), rep.name, rec)
+		err = fmt.Errorf("panic: %v", rec)
+	}
 	if err != nil {
 		c.Oracle("%sApplyChangePack failed on %s: %v", w.knownTag(), rep.name, err)
 	}
